@@ -16,6 +16,14 @@ expression of two calls, or as `(cu_f if T else nu_f)(..)`.  Each rule is three-
 recognised mechanism, VIOLATED only for a recognised wrong form (other family's routine, another
 role's argument, exchanged or folded evaluation points, a test on another attribute), UNDECIDED
 otherwise.  The Specialiser is shared with C08 and C09.
+
+Conventions are compared relationally: `uniform_span_analysis` reads cu_find_span as a piecewise
+function and extracts the K of "index returned = cell + K"; the uniform evaluators (here) and the
+collocation matrix (C08, C09) must read the window that starts at (index - K), whatever K is.  A
+routine taken from a two-entry module-level table by a flag reads as the conditional expression
+of its two entries (`resolve_dispatch_tables`); loops written `for v in A`, `zip(A, B)` or with a
+running counter read as `enumerate` (`_loop_headers`).  `pointwise` finds scalars carried from one
+point of an array to the next (upward-exposed uses in the body of a loop over the points).
 """
 from __future__ import annotations
 
@@ -140,9 +148,68 @@ def _guards_to_else(stmts):
     return out
 
 
+def _loop_headers(fn):
+    """`for v in A` / `for u, v in zip(A, B)` over array parameters read as `for _i, v in enumerate(A)` (with `u = A[_i]; v = B[_i]`), and a
+    counter that is 0 before such a loop and incremented once at the end of its body reads as the index of the iteration: the three ways
+    of writing a loop over the points look alike (no statement is executed)"""
+    params = {a.arg for a in fn.args.args}
+    cnt = _stores(fn)
+    changed = False
+
+    def visit(stmts):
+        nonlocal changed
+        for k, st in enumerate(stmts):
+            for f in ("body", "orelse"):
+                b = getattr(st, f, None)
+                if isinstance(b, list) and b and isinstance(b[0], ast.stmt):
+                    visit(b)
+            if not isinstance(st, ast.For) or st.orelse:
+                continue
+            it, idx = st.iter, None
+            if isinstance(it, ast.Name) and it.id in params and cnt.get(it.id, 0) == 0 and isinstance(st.target, ast.Name):
+                idx = f"_i{st.lineno}"
+                st.target = ast.Tuple(elts=[ast.Name(id=idx, ctx=ast.Store()), st.target], ctx=ast.Store())
+                st.iter = ast.Call(func=ast.Name(id="enumerate", ctx=ast.Load()), args=[it], keywords=[])
+                changed = True
+            elif isinstance(it, ast.Call) and src(it.func) == "zip" and len(it.args) >= 2 and not it.keywords and \
+                    all(isinstance(a, ast.Name) and a.id in params and cnt.get(a.id, 0) == 0 for a in it.args) and \
+                    isinstance(st.target, ast.Tuple) and len(st.target.elts) == len(it.args) and all(isinstance(t, ast.Name) for t in st.target.elts):
+                idx = f"_i{st.lineno}"
+                pre = [ast.Assign(targets=[ast.Name(id=t.id, ctx=ast.Store())],
+                                  value=ast.Subscript(value=ast.Name(id=a.id, ctx=ast.Load()), slice=ast.Name(id=idx, ctx=ast.Load()), ctx=ast.Load()),
+                                  lineno=st.lineno) for t, a in list(zip(st.target.elts, it.args))[1:]]
+                st.target = ast.Tuple(elts=[ast.Name(id=idx, ctx=ast.Store()), st.target.elts[0]], ctx=ast.Store())
+                st.iter = ast.Call(func=ast.Name(id="enumerate", ctx=ast.Load()), args=[it.args[0]], keywords=[])
+                st.body = pre + st.body
+                changed = True
+            elif isinstance(it, ast.Call) and src(it.func) == "enumerate" and isinstance(st.target, ast.Tuple) and len(st.target.elts) == 2 \
+                    and isinstance(st.target.elts[0], ast.Name):
+                idx = st.target.elts[0].id
+            if idx is None:
+                continue
+            # running counter
+            last = st.body[-1] if st.body else None
+            if isinstance(last, ast.AugAssign) and isinstance(last.op, ast.Add) and isinstance(last.target, ast.Name) and \
+                    isinstance(last.value, ast.Constant) and last.value.value == 1 and cnt.get(last.target.id, 0) == 2:
+                c = last.target.id
+                init = [x for x in stmts[:k] if isinstance(x, ast.Assign) and len(x.targets) == 1 and isinstance(x.targets[0], ast.Name)
+                        and x.targets[0].id == c and isinstance(x.value, ast.Constant) and x.value.value == 0 and not isinstance(x.value.value, bool)]
+                used_after = any(isinstance(n, ast.Name) and n.id == c for x in stmts[k + 1:] for n in ast.walk(x))
+                if len(init) == 1 and not used_after:
+                    st.body = [_Sub({c: ast.Name(id=idx, ctx=ast.Load())}).visit(x) for x in st.body[:-1]]
+                    changed = True
+    new = clone(fn)
+    visit(new.body)
+    if not changed:
+        return fn
+    ast.fix_missing_locations(new)
+    return new
+
+
 def structured(fn):
     """copy of a function definition whose guard clauses (early returns) are written as if/else: the symbolic extraction reads a
-    conditional with a value on each arm"""
+    conditional with a value on each arm; loops over the points are written with `enumerate`"""
+    fn = _loop_headers(fn)
     if not any(isinstance(n, ast.Return) for st in fn.body[:-1] for n in ast.walk(st)):
         return fn
     new = clone(fn)
@@ -166,6 +233,8 @@ def check_evaluator(chk, rel, name, rule="E4-evaluator"):
             over.update({"deg1": Integer(3), "deg2": Integer(3)} if two_d else {"degree": Integer(3)})
         args = make_args(fn, overrides=over)
         ex = SymExec(fn, args, calls=dict(HANDLERS))
+        # an evaluator that hands over to another routine of its module (merged entry points, a per-point helper) is read through it
+        ex.module_funcs = {q: structured(f) for q, f in mod.functions().items() if q not in HANDLERS and q != name and "." not in q}
         label = f"{name}[der={d1}{',' + str(d2) if two_d else ''}]"
         try:
             ex.run()
@@ -173,35 +242,69 @@ def check_evaluator(chk, rel, name, rule="E4-evaluator"):
             chk.ob(rule, fn, label, None, f"outside the extractable fragment: {e}", file=rel, func=name)
             continue
         i, j, k, l = (Symbol(n, integer=True) for n in "ijkl")
-        try:
+        kref = None
+        if fam == "cu":
+            try:
+                kref = uniform_span_analysis(chk.mod(U.CU).func("cu_find_span"))["K"]
+            except AnalysisError:
+                kref = None
+        shifted = None
+
+        def expected(K):
+            """(extracted value, specification) with the window of the uniform family starting at index - K"""
             if not two_d:
                 x = args["x"] if kind == "scalar" else args["x"].fn(i)
                 span, deg, B, win = basis_spec(fam, 0, args, x, d1)
                 c = args["coeffs"].fn
-                got = ex.ret if kind == "scalar" else ex.env["y"].read([i])
-                want = sp.Sum(c(span - win + j) * B(j), (j, 0, deg))
-                if fam == "cu" and not sum_equal(got, want):
-                    want = sp.Sum(c(span - 3 + j) * B(j), (j, 0, deg))      # the uniform cubic window is [span-3, span]
+                got_ = ex.ret if kind == "scalar" else ex.env["y"].read([i])
+                return got_, sp.Sum(c(span - (win if K is None else K) + j) * B(j), (j, 0, deg))
+            if kind == "scalar":
+                x, y = args["x"], args["y"]
+                got_ = ex.ret
+            elif kind == "cross":
+                x, y = args["X"].fn(i), args["Y"].fn(j)
+                got_ = ex.env["z"].read([i, j])
             else:
-                if kind == "scalar":
-                    x, y = args["x"], args["y"]
-                    got = ex.ret
-                elif kind == "cross":
-                    x, y = args["X"].fn(i), args["Y"].fn(j)
-                    got = ex.env["z"].read([i, j])
-                else:
-                    x, y = args["x"].fn(i), args["y"].fn(i)
-                    got = ex.env["z"].read([i])
-                s1, n1, B1, w1 = basis_spec(fam, 1, args, x, d1)
-                s2, n2, B2, w2 = basis_spec(fam, 2, args, y, d2)
-                c = args["coeffs"].fn
-                a_, b_ = (Symbol("k", integer=True), Symbol("l", integer=True)) if kind == "cross" else \
-                    ((Symbol("i", integer=True), Symbol("j", integer=True)) if kind == "scalar" else (Symbol("j", integer=True), Symbol("k", integer=True)))
-                inner = c(s1 - w1 + a_, s2 - w2) * B2(0) + sp.Sum(c(s1 - w1 + a_, s2 - w2 + b_) * B2(b_), (b_, 1, n2))
-                want = sp.Sum(inner * B1(a_), (a_, 0, n1))
-            ok = sum_equal(got, want)
+                x, y = args["x"].fn(i), args["y"].fn(i)
+                got_ = ex.env["z"].read([i])
+            s1, n1, B1, w1 = basis_spec(fam, 1, args, x, d1)
+            s2, n2, B2, w2 = basis_spec(fam, 2, args, y, d2)
+            if K is not None:
+                w1 = w2 = K
+            c = args["coeffs"].fn
+            a_, b_ = (Symbol("k", integer=True), Symbol("l", integer=True)) if kind == "cross" else \
+                ((Symbol("i", integer=True), Symbol("j", integer=True)) if kind == "scalar" else (Symbol("j", integer=True), Symbol("k", integer=True)))
+            inner = c(s1 - w1 + a_, s2 - w2) * B2(0) + sp.Sum(c(s1 - w1 + a_, s2 - w2 + b_) * B2(b_), (b_, 1, n2))
+            return got_, sp.Sum(inner * B1(a_), (a_, 0, n1))
+        try:
+            if fam == "nu":
+                got, want = expected(None)
+                ok = sum_equal(got, want)
+            else:
+                # the window of the uniform family starts at (index returned by the span search) - K: K is the convention of cu_find_span
+                # (cell + K); an evaluator that reads the window of another convention disagrees with the search
+                first_k = 3 if kref is None else kref
+                got, want = expected(first_k)
+                ok = sum_equal(got, want)
+                if not ok:
+                    for K2 in [k_ for k_ in (3, 0, 2, 1, 4) if k_ != first_k]:
+                        g2, w2_ = expected(K2)
+                        if sum_equal(g2, w2_):
+                            shifted = K2
+                            break
         except (Undecided, KeyError, AttributeError) as e:
             chk.ob(rule, fn, label, None, f"comparison not decidable: {type(e).__name__}: {e} (parameter or output renamed?)", file=rel, func=name)
+            continue
+        if shifted is not None:
+            if kref is None:
+                chk.ob(rule, fn, label, None, f"the evaluator reads the four coefficients from (index returned by the span search) - {shifted} "
+                       "on, but the convention of cu_find_span (cell + K) was not established: cannot compare the two", file=rel, func=name)
+            else:
+                chk.ob(rule, fn, label, False,
+                       f"cu_find_span returns cell + {kref} (cell = int((x-xmin)/dx), the four non-vanishing functions are cell .. cell+3) but this "
+                       f"evaluator reads the coefficients from (returned index) - {shifted} on, i.e. the functions cell{kref - shifted:+d} .. "
+                       f"cell{kref - shifted + 3:+d}: search and evaluator disagree on the index convention, the value is a combination of the "
+                       "wrong coefficients", file=rel, func=name, facts={"code": str(got)[:400], "spec": str(want)[:400]})
             continue
         extra = ""
         if not ok and kind != "scalar":
@@ -216,10 +319,226 @@ def check_evaluator(chk, rel, name, rule="E4-evaluator"):
             except Exception:
                 extra = ""
         chk.ob(rule, fn, label, ok,
-               "value = sum over the degree+1 (x degree+1) coefficients in the window [span-degree, span] of coefficient x basis "
+               "value = sum over the degree+1 (x degree+1) coefficients of the non-vanishing basis functions (window [span-degree, span]; "
+               "uniform family: the window that starts at the cell index, in the index convention of cu_find_span) of coefficient x basis "
                "function, with the " + ("derivative" if (d1 or d2) else "value") + " routine and the knots/degree/point/span of the "
                "same dimension" if ok else (extra[2:] + "; " if extra else "") + f"extracted contraction {str(got)[:260]} differs from {str(want)[:260]}",
                file=rel, func=name, facts={"code": str(got)[:400], "spec": str(want)[:400]})
+
+
+# --------------------------------------------------------------------------
+# the value at point i is a function of point i only: no scalar state is carried from one point of an array to the next
+# --------------------------------------------------------------------------
+def _name_stores(node):
+    """names bound by plain (scalar) stores below a node: assignment / augmented assignment / loop targets"""
+    out = set()
+    for n in ast.walk(node):
+        if isinstance(n, ast.Name) and isinstance(n.ctx, ast.Store):
+            out.add(n.id)
+    return out
+
+
+def _loads(e):
+    return {n.id for n in ast.walk(e) if isinstance(n, ast.Name) and isinstance(n.ctx, ast.Load)}
+
+
+def upward_exposed(stmts, candidates):
+    """names of `candidates` that some path through the statement list reads before it has written them (reaching definition from
+    before the list, i.e. for a loop body: from the previous iteration) -> {name: first statement that reads it}"""
+    exposed = {}
+
+    def use(e, defined, st):
+        for n in _loads(e):
+            if n in candidates and n not in defined and n not in exposed:
+                exposed[n] = st
+
+    def block(body, defined):
+        for st in body:
+            if isinstance(st, ast.Assign):
+                use(st.value, defined, st)
+                for t in st.targets:
+                    for x in ast.walk(t):
+                        if isinstance(x, ast.Subscript):
+                            use(x.slice, defined, st)
+                            if isinstance(x.value, ast.Name):
+                                use(x.value, defined, st)
+                for t in st.targets:
+                    for x in ([t] if isinstance(t, ast.Name) else t.elts if isinstance(t, ast.Tuple) else []):
+                        if isinstance(x, ast.Name):
+                            defined.add(x.id)
+            elif isinstance(st, ast.AugAssign):
+                use(st.value, defined, st)
+                use(st.target, defined, st) if not isinstance(st.target, ast.Name) else use(ast.Name(id=st.target.id, ctx=ast.Load()), defined, st)
+                if isinstance(st.target, ast.Name):
+                    defined.add(st.target.id)
+            elif isinstance(st, ast.If):
+                use(st.test, defined, st)
+                d1, d2 = set(defined), set(defined)
+                block(st.body, d1)
+                block(st.orelse, d2)
+                defined |= (d1 & d2)
+            elif isinstance(st, ast.For):
+                use(st.iter, defined, st)
+                d1 = set(defined) | _name_stores(st.target)
+                block(st.body, d1)          # the body may not run: nothing it defines is certain afterwards
+                block(st.orelse, set(defined))
+            elif isinstance(st, ast.While):
+                use(st.test, defined, st)
+                block(st.body, set(defined))
+            elif isinstance(st, (ast.Return, ast.Expr, ast.Assert)):
+                for c in ast.iter_child_nodes(st):
+                    use(c, defined, st)
+            else:
+                for c in ast.iter_child_nodes(st):
+                    if isinstance(c, ast.expr):
+                        use(c, defined, st)
+    block(stmts, set())
+    return exposed
+
+
+def _only_increments(fn_body, start, mod=None, depth=0):
+    """Is the value that the names `start` hold at the end of the statement list their value at its beginning plus a non-negative amount
+    (or minus: direction -1)?  Followed through plain copies `a = b`; every other definition must be `a += c` / `a = a + c` with a positive
+    literal c, or a call of a module-level function that returns its own parameter after such updates only.
+    -> (+1 | -1, chain of names) or None"""
+    S, todo = set(start), list(start)
+    sign = None
+    while todo:
+        v = todo.pop()
+        for st in ast.walk(ast.Module(body=list(fn_body), type_ignores=[])):
+            tgt, val = None, None
+            if isinstance(st, ast.Assign) and len(st.targets) == 1 and isinstance(st.targets[0], ast.Name) and st.targets[0].id == v:
+                tgt, val = st.targets[0], st.value
+            elif isinstance(st, ast.AugAssign) and isinstance(st.target, ast.Name) and st.target.id == v:
+                if not (isinstance(st.op, (ast.Add, ast.Sub)) and isinstance(st.value, ast.Constant) and isinstance(st.value.value, int)
+                        and st.value.value > 0):
+                    return None
+                s_ = 1 if isinstance(st.op, ast.Add) else -1
+                if sign not in (None, s_):
+                    return None
+                sign = s_
+                continue
+            elif isinstance(st, (ast.Assign, ast.For)) and v in _name_stores(st.targets[0] if isinstance(st, ast.Assign) and st.targets else
+                                                                               getattr(st, "target", ast.Pass())):
+                return None             # bound by unpacking / as a loop target
+            else:
+                continue
+            if isinstance(val, ast.Name):
+                if val.id not in S:
+                    S.add(val.id)
+                    todo.append(val.id)
+                continue
+            if isinstance(val, ast.BinOp) and isinstance(val.op, (ast.Add, ast.Sub)) and isinstance(val.left, ast.Name) and val.left.id in S \
+                    and isinstance(val.right, ast.Constant) and isinstance(val.right.value, int) and val.right.value > 0:
+                s_ = 1 if isinstance(val.op, ast.Add) else -1
+                if sign not in (None, s_):
+                    return None
+                sign = s_
+                continue
+            if isinstance(val, ast.Call) and isinstance(val.func, ast.Name) and mod is not None and depth < 2:
+                try:
+                    callee = mod.func(val.func.id)
+                except AnalysisError:
+                    return None
+                formals = [a.arg for a in callee.args.args]
+                carried = [f_ for f_, a in zip(formals, val.args) if isinstance(a, ast.Name) and a.id in S]
+                rets = [r.value for r in ast.walk(callee) if isinstance(r, ast.Return)]
+                if len(carried) != 1 or not rets or not all(isinstance(r, ast.Name) for r in rets):
+                    return None
+                inner = _only_increments(callee.body, {r.id for r in rets}, mod, depth + 1)
+                if inner is None or carried[0] not in inner[1] or _stores(callee).get(carried[0], 0) and carried[0] not in inner[1]:
+                    return None
+                if sign not in (None, inner[0]):
+                    return None
+                sign = inner[0]
+                continue
+            return None
+    return (sign, S) if sign is not None else None
+
+
+def pointwise(chk, rel, name):
+    """E4-pointwise: in an evaluator over an array of points, the scalars computed for one point do not depend on the points before it"""
+    mod = chk.mod(rel)
+    fn = mod.func(name)
+    params = [a.arg for a in fn.args.args]
+    pts = set()
+    for p_ in params:
+        if p_ in ("knots", "kts1", "degree", "deg1"):
+            break
+        pts.add(p_)
+
+    def point_loop(lp):
+        it = lp.iter
+        if isinstance(it, ast.Call) and src(it.func) == "enumerate" and it.args and isinstance(it.args[0], ast.Name) and it.args[0].id in pts:
+            return True
+        if isinstance(it, ast.Name) and it.id in pts:
+            return True
+        if isinstance(it, ast.Call) and src(it.func) in ("range", "prange") and any(
+                (isinstance(x, ast.Call) and src(x.func) == "len" and x.args and src(x.args[0]) in pts) or
+                (isinstance(x, ast.Subscript) and isinstance(x.value, ast.Attribute) and x.value.attr == "shape" and src(x.value.value) in pts)
+                for a in it.args for x in ast.walk(a)):
+            return True
+        if isinstance(it, ast.Call) and src(it.func) == "zip" and any(isinstance(a, ast.Name) and a.id in pts for a in it.args):
+            return True
+        return False
+    loops = [n for n in ast.walk(fn) if isinstance(n, ast.For) and point_loop(n)]
+    if not loops:
+        return
+    verdict, text, node = True, "", fn
+    for lp in loops:
+        cands = _name_stores(ast.Module(body=lp.body, type_ignores=[])) - _name_stores(lp.target)
+        exp = upward_exposed(lp.body, cands)
+        for v, st in exp.items():
+            # is the carried value used for anything but its own update?
+            chain = _only_increments(lp.body, {v}, mod)
+            names = chain[1] if chain else {v}
+            used = [s2 for s2 in ast.walk(ast.Module(body=lp.body, type_ignores=[])) if isinstance(s2, ast.stmt) and
+                    not isinstance(s2, (ast.For, ast.While, ast.If)) and names & _loads(s2) and
+                    not ((isinstance(s2, ast.Assign) and len(s2.targets) == 1 and isinstance(s2.targets[0], ast.Name) and s2.targets[0].id in names)
+                         or (isinstance(s2, ast.AugAssign) and isinstance(s2.target, ast.Name) and s2.target.id in names))]
+            if not used:
+                continue
+
+            def span_role(s2):
+                """is a carried name handed to a basis / span routine, or does it index the coefficients or the knots?"""
+                for x in ast.walk(s2):
+                    if isinstance(x, ast.Call) and isinstance(x.func, ast.Name) and ("basis_funs" in x.func.id or "find_span" in x.func.id) and \
+                            any(names & _loads(a) for a in x.args):
+                        return True
+                    if isinstance(x, ast.Subscript) and isinstance(x.value, ast.Name) and (x.value.id in ("coeffs", "knots", "kts1", "kts2", "theCoeffs")) \
+                            and names & _loads(x.slice):
+                        return True
+                return False
+
+            def output_position(s2):
+                """the carried name only says where the result of this point is stored (a running output index)"""
+                subs = [x for x in ast.walk(s2) if isinstance(x, ast.Subscript) and names & _loads(x.slice)]
+                outs = {"y", "z"} | {a.arg for a in fn.args.args if a.arg in ("y", "z", "out", "result")}
+                return bool(subs) and all(isinstance(x.value, ast.Name) and x.value.id in outs and x.value.id not in pts for x in subs) and \
+                    not (names & (_loads(s2) - {n_ for x in subs for n_ in _loads(x.slice)}))
+            in_span = [s2 for s2 in used if span_role(s2)]
+            if not in_span and all(output_position(s2) for s2 in used) and chain is not None and chain[0] > 0:
+                continue                # a counter of the points done: the same as the index of the iteration
+            if not in_span:
+                chain = None
+            else:
+                used = in_span
+            if chain is not None and verdict is not False:
+                how = "increased" if chain[0] > 0 else "decreased"
+                verdict, node = False, st
+                text = (f"`{v}` is carried from one point of `{src(lp.iter)[:40]}` to the next (`{src(st)[:60]}` reads the value the previous "
+                        f"iteration left) and is only ever {how} in the loop ({', '.join(sorted(names))}): the value used in "
+                        f"`{src(used[0])[:70]}` for point i is at {'least' if chain[0] > 0 else 'most'} the one of point i-1, so for a point "
+                        f"lying {'left' if chain[0] > 0 else 'right'} of the previous one (points not sorted: descending grid, feet of "
+                        "characteristics) the span of another cell is kept and the polynomial piece of that cell is evaluated - the "
+                        "result for point i depends on the points before it")
+            elif verdict is True:
+                verdict, node = None, st
+                text = (f"`{v}` is carried from one point of `{src(lp.iter)[:40]}` to the next (`{src(st)[:60]}` reads the value the "
+                        "previous iteration left): whether the value computed for point i is independent of the points before it is not followed")
+    chk.ob("E4-pointwise", node, f"{name}: the scalars of one point do not depend on the previous points", verdict,
+           "every scalar used for point i (span, offset, accumulators) is computed within the iteration of point i" if verdict else text,
+           file=rel, func=name)
 
 
 def sum_equal(a, b):
@@ -249,6 +568,169 @@ def _canon(e, depth=0):
 
 
 # --------------------------------------------------------------------------
+# the uniform span search: which index it returns (the convention its consumers must share) and whether it stays in the last cell
+# --------------------------------------------------------------------------
+_SPAN_CACHE = {}
+
+
+def uniform_span_analysis(fs):
+    """cu_find_span read as a piecewise function of its arguments (symbolic forward substitution, one leaf per truth assignment of its
+    guards).  With p = (x - xmin)/dx and c = int(p):
+      * an interior leaf returns (c + K, p - c) for an integer constant K (K = 3: knot span; K = 0: first non-vanishing function);
+      * an end leaf returns (ncells - 1 + K, 1): the last cell, evaluated at its right edge;
+      * every leaf has the same K, and an interior leaf is reached only when its guards exclude c == ncells BY A TEST ON c ITSELF: dx is a
+        rounded cell width, so no comparison of x with xmax bounds int((x - xmin)/dx) below ncells.
+    -> {"ok": True | False | None, "why": text, "K": int | None}"""
+    key = id(fs)
+    if key in _SPAN_CACHE:
+        return _SPAN_CACHE[key]
+    from ..symx import collect_ites, bool_atoms, consistent, resolve_ite, canon_rel
+    import itertools
+    out = {"ok": None, "why": "span search not extractable", "K": None}
+    _SPAN_CACHE[key] = out
+    params = [a.arg for a in fs.args.args]
+    if len(params) != 5:
+        out["why"] = f"span search has the parameters {params}: not (xmin, xmax, dx, x, ncells)"
+        return out
+    args = make_args(fs)
+    xmin_s, xmax_s, dx_s, xs, nc_s = (args[p_] for p_ in params)
+    try:
+        exs = SymExec(structured(fs), dict(args), calls={})
+        exs.run()
+        ret = exs.ret
+        if isinstance(ret, tuple):
+            ret = sp.Tuple(*ret)
+        if ret is None:
+            raise Undecided("no value returned")
+        ites, atoms = [], set()
+        collect_ites(ret, ites)
+        for i_ in ites:
+            bool_atoms(i_.args[0], atoms)
+        atoms = sorted(atoms, key=str)
+        if len(atoms) > 6:
+            raise Undecided(f"{len(atoms)} atomic conditions")
+        pos = (xs - xmin_s) / dx_s
+        leaves = []
+        for bits in itertools.product([False, True], repeat=len(atoms)):
+            val = dict(zip(atoms, bits))
+            if not consistent(val):
+                continue
+            leaf = resolve_ite(ret, val)
+            if not isinstance(leaf, (tuple, sp.Tuple)) or len(leaf) != 2:
+                raise Undecided(f"a path returns `{leaf}`, not a pair (index, offset)")
+            leaves.append((val, sp.sympify(leaf[0]), sp.sympify(leaf[1])))
+    except (Undecided, KeyError, AttributeError, TypeError) as e:
+        out["why"] = f"span search not extractable: {e}"
+        return out
+    toints = {a_ for _v, s_, o_ in leaves for a_ in list(s_.atoms(Function)) + list(o_.atoms(Function)) if str(a_.func) == "toint"}
+    for (k_, e_) in atoms:
+        toints |= {a_ for a_ in e_.atoms(Function) if str(a_.func) == "toint"}
+    cells = [t_ for t_ in toints if sp.simplify(t_.args[0] - pos) == 0]
+    T = Symbol("cell", integer=True)
+    if cells:
+        # one name for the integer part of (x - xmin)/dx, whatever its spelling (comparisons are kept in expanded form)
+        rep = {t_: T for t_ in cells}
+        leaves = [({(k_, sp.expand(e_.xreplace(rep))): v for (k_, e_), v in val.items()}, s_.xreplace(rep), o_.xreplace(rep))
+                  for val, s_, o_ in leaves]
+        toints = {t_ for t_ in toints if t_ not in rep}
+    if not cells or toints:
+        out["why"] = (f"the cell index is not int((x - xmin)/dx) (integer parts found: {sorted(map(str, toints))})" if toints else
+                      "no integer part of (x - xmin)/dx is taken")
+        return out
+    pos_t = pos                     # the offset of an interior leaf is p - cell
+
+    def about_cell(val):
+        """what the guards of a leaf say about t = cell - ncells: -> (lower bound or None, upper bound or None, {excluded values}, value or None)"""
+        lo = hi = eq = None
+        ne = set()
+        for (k_, e_), v in val.items():
+            d = sp.expand(e_)
+            for sign in (1, -1):
+                c = sp.expand(d - sign * (T - nc_s))
+                if not c.is_Integer:
+                    continue
+                c = int(c)
+                # the atom reads  sign*t + c <k> 0
+                if k_ == "eq":
+                    val_t = -c * sign
+                    if v:
+                        eq = val_t
+                    else:
+                        ne.add(val_t)
+                else:
+                    strict = k_ == "lt"
+                    if sign == 1:       # t + c < 0  /  t + c <= 0
+                        if v:
+                            ub = -c - 1 if strict else -c
+                            hi = ub if hi is None else min(hi, ub)
+                        else:
+                            lb = -c if strict else -c + 1
+                            lo = lb if lo is None else max(lo, lb)
+                    else:               # -t + c < 0  /  -t + c <= 0
+                        if v:
+                            lb = c + 1 if strict else c
+                            lo = lb if lo is None else max(lo, lb)
+                        else:
+                            ub = c if strict else c - 1
+                            hi = ub if hi is None else min(hi, ub)
+                break
+        return lo, hi, ne, eq
+
+    def about_x(val):
+        """guards that compare the point with the end of the domain"""
+        return [(k_, e_, v) for (k_, e_), v in val.items() if e_.has(xs) and e_.has(xmax_s) and not e_.has(T)]
+    Ks, problems, undecided = set(), [], []
+    for val, s_, o_ in leaves:
+        lo, hi, ne, eq = about_cell(val)
+        if eq is not None:
+            s_, o_ = s_.subs(T, nc_s + eq), o_.subs(T, nc_s + eq)
+        interior = sp.simplify(o_ - (pos_t - T)) == 0 and (sp.expand(s_ - T)).is_Integer
+        at_end = sp.simplify(o_ - 1) == 0 and (sp.expand(s_ - nc_s)).is_Integer
+        if interior:
+            k_here = int(sp.expand(s_ - T))
+            Ks.add(k_here)
+            if (hi is not None and hi <= -1) or 0 in ne:
+                continue                # cell < ncells, or cell != ncells (cell <= ncells on the closed domain)
+            if lo is not None and lo >= 0:
+                problems.append(f"when int((x-xmin)/dx) >= ncells the index int((x-xmin)/dx)+{k_here} is returned: the four functions "
+                                "it designates run past the last basis function")
+                continue
+            xg = about_x(val)
+            if xg:
+                problems.append(
+                    "the last cell is selected by a comparison of x with xmax and every other point gets "
+                    f"int((x-xmin)/dx)+{k_here}: dx is a rounded cell width, so for points just below xmax "
+                    "(x-xmin)/dx can reach ncells although x < xmax; the index then designates the functions [ncells, ncells+3], one "
+                    "past the ncells+3 coefficients (IndexError in pure Python, out-of-bounds read once compiled); the test must be on "
+                    "the computed cell index itself")
+            elif not val:
+                problems.append(f"int((x-xmin)/dx)+{k_here} is returned for every x: at x = xmax the cell index is ncells and the four "
+                                "functions designated run past the last basis function (the right end point of the closed domain is "
+                                "not evaluated in the last cell)")
+            else:
+                undecided.append(f"the guards {[str(e_) for (_k, e_) in val]} of the leaf ({s_}, {o_}) do not bound the cell index")
+        elif at_end:
+            k_here = int(sp.expand(s_ - nc_s)) + 1
+            Ks.add(k_here)
+        else:
+            undecided.append(f"a path returns ({s_}, {o_}): neither (cell + K, p - cell) nor (ncells - 1 + K, 1)")
+    if not any(sp.simplify(o_ - 1) == 0 for _v, _s, o_ in leaves) and not problems and not undecided:
+        undecided.append("no path evaluates the right end point in the last cell")
+    if len(Ks) == 1:
+        out["K"] = next(iter(Ks))
+    if problems:
+        out["ok"], out["why"] = False, "; ".join(problems)
+    elif len(Ks) > 1:
+        out["ok"] = False
+        out["why"] = (f"the paths of the span search return cell+K for different K ({sorted(Ks)}, the end point counted as cell ncells-1): "
+                      "the window of coefficients its callers read is shifted on one of the paths")
+    elif undecided or not Ks:
+        out["why"] = "; ".join(undecided) or "no leaf recognised"
+    else:
+        out["ok"], out["why"] = True, ""
+    return out
+
+
 def cardinal_cubic(chk):
     """cu_basis_funs / cu_basis_funs_1st_der are the cardinal cubic B-spline pieces"""
     mod = chk.mod(U.CU)
@@ -304,46 +786,12 @@ def cardinal_cubic(chk):
                file=U.CU, func="cu_basis_funs_1st_der")
     # span search: (x - xmin)/dx, integer part, right end point mapped to the last cell with offset 1
     fs = mod.func("cu_find_span")
-    ok, whyspan = None, "span search not extractable"
-    try:
-        exs = SymExec(structured(fs), make_args(fs), calls={})
-        exs.run()
-        ret = exs.ret
-        xs, xmin_s, dx_s, nc_s = (exs.env[k] if k in exs.env else sp.Symbol(k) for k in ("x", "xmin", "dx", "ncells"))
-
-        def pieces(r):
-            """-> [(condition or None, (span, offset))]"""
-            if isinstance(r, (tuple, sp.Tuple)) and len(r) == 2:
-                a_, b_ = r
-                from ..symx import ITE as _ITE
-                if isinstance(a_, _ITE) and isinstance(b_, _ITE) and a_.args[0] == b_.args[0]:
-                    c_ = a_.args[0]
-                    return [(c_, (a_.args[1], b_.args[1])), (sp.Not(c_), (a_.args[2], b_.args[2]))]
-                return [(None, (a_, b_))]
-            from ..symx import ITE as _ITE
-            if isinstance(r, _ITE):
-                c_ = r.args[0]
-                return [(c_, r.args[1]), (sp.Not(c_), r.args[2])]
-            return []
-        ps = [(c_, tuple(v) if isinstance(v, (tuple, sp.Tuple)) else v) for c_, v in pieces(ret)]
-        pos = (xs - xmin_s) / dx_s
-        T = [a_ for a_ in sp.preorder_traversal(ps[0][0] if ps and ps[0][0] is not None else sp.Integer(0))
-             if getattr(a_, "func", None) is not None and str(a_.func) == "toint"]
-        if len(ps) == 2 and all(isinstance(v, tuple) and len(v) == 2 for _, v in ps) and isinstance(ps[0][0], sp.Eq) and T:
-            t_ = T[0]
-            cond = ps[0][0]
-            good_cond = {cond.lhs, cond.rhs} == {t_, nc_s} and sp.simplify(t_.args[0] - pos) == 0
-            (s1, o1), (s2, o2) = ps[0][1], ps[1][1]
-            end_ok = sp.simplify((s1 - (t_ + 2)).subs(nc_s, t_)) == 0 and sp.simplify(o1 - 1) == 0
-            in_ok = sp.simplify(s2 - (t_ + 3)) == 0 and sp.simplify(o2 - (pos - t_)) == 0
-            ok = bool(good_cond and end_ok and in_ok)
-            whyspan = "" if ok else (f"span search returns {ret}: expected (int(p)+3, p-int(p)) with p=(x-xmin)/dx, and (ncells+2, 1) when "
-                                     "int(p) == ncells (right end point evaluated in the last cell)")
-    except (Undecided, KeyError, AttributeError, TypeError) as e:
-        whyspan = f"span search not extractable: {e}"
-    chk.ob("F8-uniform-span", fs, "cu_find_span", ok,
-           "cell = int((x-xmin)/dx), span = cell+3 (window [span-3, span] = the 4 splines on that cell); at x = xmax the last cell "
-           "is used with offset 1 (span = ncells+2)" if ok else (whyspan or "uniform span search changed"), file=U.CU, func="cu_find_span")
+    res = uniform_span_analysis(fs)
+    K = res["K"]
+    chk.ob("F8-uniform-span", fs, "cu_find_span", res["ok"],
+           (f"cell = int((x-xmin)/dx), the index returned is cell+{K} (the 4 splines on that cell are the functions "
+            f"[index-{K}, index-{K}+3]); the point whose cell index reaches ncells (x = xmax) is evaluated in the last cell with offset 1 "
+            f"(index = ncells+{K - 1})") if res["ok"] else res["why"], file=U.CU, func="cu_find_span")
 
 
 # --------------------------------------------------------------------------
@@ -1415,6 +1863,104 @@ def check_site(chk, q, smod, site, sigs, flow, fn, fm=None):
         chk.ob("E2-argument-role", node, f"{q}: derivative orders -> {arm['name']}", okd, msgd, file=U.SPLINES, func=q, nontrivial=False)
 
 
+def _module_tables(mod):
+    """module-level tables of routines selected by a flag: NAME = {False: f, True: g} / {False: (f1, f2), True: (g1, g2)} / (f, g)
+    -> {NAME: {False: expr, True: expr}}"""
+    out = {}
+    for st in mod.tree.body:
+        if not (isinstance(st, ast.Assign) and len(st.targets) == 1 and isinstance(st.targets[0], ast.Name)):
+            continue
+        v = st.value
+        if isinstance(v, ast.Dict) and len(v.keys) == 2 and all(isinstance(k, ast.Constant) and k.value in (True, False, 0, 1) for k in v.keys):
+            d = {bool(k.value): x for k, x in zip(v.keys, v.values)}
+            if set(d) == {True, False}:
+                out[st.targets[0].id] = d
+        elif isinstance(v, (ast.Tuple, ast.List)) and len(v.elts) == 2 and all(
+                isinstance(x, ast.Name) or (isinstance(x, (ast.Tuple, ast.List)) and all(isinstance(y, ast.Name) for y in x.elts)) for x in v.elts):
+            out[st.targets[0].id] = {False: v.elts[0], True: v.elts[1]}
+    return out
+
+
+def resolve_dispatch_tables(mod, body):
+    """a routine taken from a two-entry table by a flag (`f = TABLE[bool(flag)]`, `f, g = TABLE[flag]`, `TABLE[flag][0](...)`) reads as the
+    conditional expression `(TABLE[True] if flag else TABLE[False])`: dict dispatch and if/else dispatch look alike (no statement is
+    executed; the table must be a module-level literal that nothing else assigns)"""
+    tables = _module_tables(mod)
+    if not tables:
+        return body
+    written = {src(t.value) for st in ast.walk(mod.tree) if isinstance(st, (ast.Assign, ast.AugAssign, ast.Delete))
+               for t in (st.targets if isinstance(st, (ast.Assign, ast.Delete)) else [st.target]) if isinstance(t, ast.Subscript)}
+    tables = {k: v for k, v in tables.items() if k not in written}
+
+    def flag(e):
+        while isinstance(e, ast.Call) and src(e.func) in ("bool", "int") and len(e.args) == 1 and not e.keywords:
+            e = e.args[0]
+        return e
+
+    def lookup(e):
+        """TABLE[key] or TABLE[key][k] -> conditional expression, or None"""
+        k = None
+        if isinstance(e, ast.Subscript) and isinstance(e.slice, ast.Constant) and isinstance(e.slice.value, int) and \
+                isinstance(e.value, ast.Subscript):
+            k, e = e.slice.value, e.value
+        if isinstance(e, ast.Subscript) and isinstance(e.value, ast.Name) and e.value.id in tables:
+            t = tables[e.value.id]
+            a, b = t[True], t[False]
+            if k is not None:
+                if not all(isinstance(x, (ast.Tuple, ast.List)) and -len(x.elts) <= k < len(x.elts) for x in (a, b)):
+                    return None
+                a, b = a.elts[k], b.elts[k]
+            return ast.IfExp(test=clone(flag(e.slice)), body=clone(a), orelse=clone(b))
+        return None
+
+    class T(ast.NodeTransformer):
+        def __init__(self):
+            self.env = {}
+
+        def visit_Assign(self, st):
+            self.generic_visit(st)
+            if len(st.targets) == 1:
+                t, got = st.targets[0], lookup(st.value)
+                if got is None and isinstance(st.value, ast.IfExp):
+                    got = st.value if isinstance(st.value.body, (ast.Name, ast.Tuple)) else None
+                if got is not None and isinstance(t, ast.Name) and isinstance(got.body, ast.Name):
+                    self.env[t.id] = got
+                    return st
+                if got is not None and isinstance(t, ast.Tuple) and isinstance(got.body, (ast.Tuple, ast.List)) and \
+                        isinstance(got.orelse, (ast.Tuple, ast.List)) and len(got.body.elts) == len(got.orelse.elts) == len(t.elts):
+                    for k, el in enumerate(t.elts):
+                        if isinstance(el, ast.Name):
+                            self.env[el.id] = ast.IfExp(test=clone(got.test), body=clone(got.body.elts[k]), orelse=clone(got.orelse.elts[k]))
+                    return st
+                for x in ast.walk(t):
+                    if isinstance(x, ast.Name):
+                        self.env.pop(x.id, None)
+            return st
+
+        def visit_Call(self, c):
+            self.generic_visit(c)
+            f = c.func
+            new = None
+            if isinstance(f, ast.Name) and f.id in self.env and f.id not in rebound_local:
+                new = clone(self.env[f.id])
+            elif isinstance(f, ast.Subscript):
+                new = lookup(f)
+                if new is not None and not isinstance(new.body, ast.Name):
+                    new = None
+            if new is not None:
+                c.func = ast.copy_location(new, f)
+                ast.fix_missing_locations(c)
+            return c
+    cnt = {}
+    for st in body:
+        for n in ast.walk(st):
+            if isinstance(n, ast.Name) and isinstance(n.ctx, ast.Store):
+                cnt[n.id] = cnt.get(n.id, 0) + 1
+    rebound_local = {n for n, c_ in cnt.items() if c_ > 1}
+    tr = T()
+    return [tr.visit(st) for st in body]
+
+
 def find_sites(body):
     """places of a specialised entry point where a kernel is called:
     -> (sites, loose) ; loose = evaluator calls that no family test selects"""
@@ -1571,7 +2117,7 @@ def dispatch_and_wrap(chk):
         chk.functions.add(f"{U.SPLINES}:{q}")
         cls_name, meth = q.split(".")
         sp_ = Specialiser(smod, cls_name)
-        body = sp_.run(meth)
+        body = resolve_dispatch_tables(smod, sp_.run(meth))
         if cls_name not in fms:
             fms[cls_name] = FamilyModel(smod, cls_name)
         # the evaluation points reach the kernels as given: the spline is evaluated AT x, on the closed domain
@@ -1792,17 +2338,24 @@ def run(chk):
         "is extracted by symbolic forward substitution and equals the contraction of the coefficient window [span-degree, span] "
         "with the value/derivative basis routine applied to the knots, degree, point and span (cell size) of the same dimension; "
         "the uniform cubic basis equals the cardinal cubic B-spline, sums to 1, has non-negative Bernstein coefficients, its "
-        "derivative routine is d/dx of it and sums to 0; uniform span search incl. right end point; periodic wrap; evaluators do "
-        "not write into the coefficient array. Cox-de Boor recursion and binary span search are not decided.")
+        "derivative routine is d/dx of it and sums to 0; the uniform span search is read as a piecewise function (one leaf per truth "
+        "assignment of its guards): every leaf returns cell+K with one K, the end point is evaluated in the last cell, and the cell "
+        "index is kept below ncells by a test on the index itself; the uniform evaluators (and the collocation matrix, C08/C09) are "
+        "compared with THAT K (index convention shared by search and consumers, whatever it is); in the evaluators over arrays of "
+        "points no scalar (span, offset) is carried from one point to the next; entry points that take their kernels from a "
+        "two-entry table read like if/else; periodic wrap; evaluators do not write into the coefficient array. Cox-de Boor "
+        "recursion and binary span search are not decided.")
     chk.assumptions += ["nu_basis_funs / nu_basis_funs_1st_der / nu_find_span compute the non-vanishing B-splines, their derivatives and the span (declined part)"]
     chk.in_file(U.NU)
     for fam, rel in (("nu", U.NU), ("cu", U.CU)):
         for e in EVALUATORS:
             check_evaluator(chk, rel, f"{fam}_{e}")
+            pointwise(chk, rel, f"{fam}_{e}")
     cardinal_cubic(chk)
     dispatch_and_wrap(chk)
     no_coeff_mutation(chk)
     chk.floor("E4-evaluator", 28)
+    chk.floor("E4-pointwise", 2)
     chk.floor("F8-", 14)
     chk.floor("E1-dispatch", 5)
     chk.floor("E2-", 6)
